@@ -67,6 +67,12 @@ func (e *Exec) intrinsic(th *Thread, fn *ssa.Function, args []Value) (Value, boo
 		return nil, true
 	}
 	name := fnName(fn)
+	if name == "github.com/shopspring/decimal.NewFromString" && !e.intMode {
+		if str, ok := args[0].(string); ok {
+			e.stubs["native:"+name]++
+			return e.decimalFromString(fn, str), true
+		}
+	}
 	if strings.HasPrefix(name, "(*math/big.Int).") && !e.intMode && token.IsExported(fn.Name()) {
 		// constants: the real math/big, exact at any size
 		if v, ok := e.nativeBig(fn, args); ok {
